@@ -24,6 +24,11 @@ pub const fn div_rem_base(
         &self,
         rhs: &NonZero<Self>,
     ) -> (ret__: (Uint<{ LIMBS }>, Uint<{ LIMBS }>, ConstChoice, ConstChoice))
+//@+
+    requires 1 <= LIMBS < 0x400_0000, rhs.0.iv() != 0
+    ensures ret__.2.wf(), ret__.3.wf(), ret__.2.t() == (self.iv() < 0), ret__.3.t() == (rhs.0.iv() < 0),
+        ret__.0.v() * abs_i(rhs.0.iv()) + ret__.1.v() == abs_i(self.iv()), 0 <= ret__.1.v() < abs_i(rhs.0.iv())
+//@-
 {
         // Step 1: split operands into signs and magnitudes.
         let (lhs_mag, lhs_sgn) = self.abs_sign();
@@ -38,9 +43,30 @@ pub const fn div_rem_base(
 //@@ fn src/int/div.rs | impl<const LIMBS: usize> Int<LIMBS> | checked_div_rem | body | props C14 C11
 impl<const LIMBS: usize> Int<LIMBS> {
 pub const fn checked_div_rem(&self, rhs: &NonZero<Self>) -> (ret__: (ConstCtOption<Self>, Self))
+//@+
+    requires 1 <= LIMBS < 0x400_0000, rhs.0.iv() != 0
+    ensures
+        self.iv() == trunc_q(self.iv(), rhs.0.iv()) * rhs.0.iv() + ret__.1.iv(),
+        abs_i(ret__.1.iv()) < abs_i(rhs.0.iv()),
+        ret__.1.iv() == 0 || (ret__.1.iv() < 0) == (self.iv() < 0),
+        ret__.0.is_some.wf(),
+        ret__.0.is_some.t() == !(self.iv() == -ih(LIMBS as nat) && rhs.0.iv() == -1),
+        ret__.0.is_some.t() ==> ret__.0.value.iv() == trunc_q(self.iv(), rhs.0.iv())
+//@-
 {
         let (quotient, remainder, lhs_sgn, rhs_sgn) = self.div_rem_base(rhs);
         let opposing_signs = lhs_sgn.ne(rhs_sgn);
+//@+
+    proof {
+        let n = self.iv(); let d = rhs.0.iv();
+        lemma_half(LIMBS as nat); lemma_half(LIMBS as nat);
+        lemma_val_bound(quotient.limbs@, LIMBS as nat); lemma_val_bound(remainder.limbs@, LIMBS as nat);
+        lemma_val_bound(self.0.limbs@, LIMBS as nat); lemma_val_bound(rhs.0.0.limbs@, LIMBS as nat);
+        lemma_iv_bounds(self.0.v(), LIMBS as nat); lemma_iv_bounds(rhs.0.0.v(), LIMBS as nat);
+        lemma_trunc(n, d, quotient.v(), remainder.v());
+        lemma_qbound(n, d, quotient.v(), remainder.v(), ih(LIMBS as nat));
+    }
+//@-
         (
             Self::new_from_abs_sign(quotient, opposing_signs),
             remainder.as_int().wrapping_neg_if(lhs_sgn), // as_int mapping is safe; remainder < 2^{k-1} by construction.
@@ -51,6 +77,11 @@ pub const fn checked_div_rem(&self, rhs: &NonZero<Self>) -> (ret__: (ConstCtOpti
 //@@ fn src/int/div.rs | impl<const LIMBS: usize> Int<LIMBS> | rem | body | props C14 C11
 impl<const LIMBS: usize> Int<LIMBS> {
 pub const fn rem(&self, rhs: &NonZero<Self>) -> (ret__: Self)
+//@+
+    requires 1 <= LIMBS < 0x400_0000, rhs.0.iv() != 0
+    ensures ret__.iv() == self.iv() - trunc_q(self.iv(), rhs.0.iv()) * rhs.0.iv(),
+        abs_i(ret__.iv()) < abs_i(rhs.0.iv()), ret__.iv() == 0 || (ret__.iv() < 0) == (self.iv() < 0)
+//@-
 {
         self.checked_div_rem(rhs).1
     }
@@ -62,6 +93,11 @@ pub const fn div_rem_base_vartime<const RHS_LIMBS: usize>(
         &self,
         rhs: &NonZero<Int<RHS_LIMBS>>,
     ) -> (ret__: (Uint<LIMBS>, Uint<RHS_LIMBS>, ConstChoice, ConstChoice))
+//@+
+    requires 1 <= LIMBS < 0x400_0000, 1 <= RHS_LIMBS < 0x400_0000, rhs.0.iv() != 0
+    ensures ret__.2.wf(), ret__.3.wf(), ret__.2.t() == (self.iv() < 0), ret__.3.t() == (rhs.0.iv() < 0),
+        ret__.0.v() * abs_i(rhs.0.iv()) + ret__.1.v() == abs_i(self.iv()), 0 <= ret__.1.v() < abs_i(rhs.0.iv())
+//@-
 {
         // Step 1: split operands into signs and magnitudes.
         let (lhs_mag, lhs_sgn) = self.abs_sign();
@@ -79,9 +115,30 @@ pub const fn checked_div_rem_vartime<const RHS_LIMBS: usize>(
         &self,
         rhs: &NonZero<Int<RHS_LIMBS>>,
     ) -> (ret__: (ConstCtOption<Self>, Int<RHS_LIMBS>))
+//@+
+    requires 1 <= LIMBS < 0x400_0000, 1 <= RHS_LIMBS < 0x400_0000, rhs.0.iv() != 0
+    ensures
+        self.iv() == trunc_q(self.iv(), rhs.0.iv()) * rhs.0.iv() + ret__.1.iv(),
+        abs_i(ret__.1.iv()) < abs_i(rhs.0.iv()),
+        ret__.1.iv() == 0 || (ret__.1.iv() < 0) == (self.iv() < 0),
+        ret__.0.is_some.wf(),
+        ret__.0.is_some.t() == !(self.iv() == -ih(LIMBS as nat) && rhs.0.iv() == -1),
+        ret__.0.is_some.t() ==> ret__.0.value.iv() == trunc_q(self.iv(), rhs.0.iv())
+//@-
 {
         let (quotient, remainder, lhs_sgn, rhs_sgn) = self.div_rem_base_vartime(rhs);
         let opposing_signs = lhs_sgn.ne(rhs_sgn);
+//@+
+    proof {
+        let n = self.iv(); let d = rhs.0.iv();
+        lemma_half(LIMBS as nat); lemma_half(RHS_LIMBS as nat);
+        lemma_val_bound(quotient.limbs@, LIMBS as nat); lemma_val_bound(remainder.limbs@, RHS_LIMBS as nat);
+        lemma_val_bound(self.0.limbs@, LIMBS as nat); lemma_val_bound(rhs.0.0.limbs@, RHS_LIMBS as nat);
+        lemma_iv_bounds(self.0.v(), LIMBS as nat); lemma_iv_bounds(rhs.0.0.v(), RHS_LIMBS as nat);
+        lemma_trunc(n, d, quotient.v(), remainder.v());
+        lemma_qbound(n, d, quotient.v(), remainder.v(), ih(LIMBS as nat));
+    }
+//@-
         (
             Self::new_from_abs_sign(quotient, opposing_signs),
             remainder.as_int().wrapping_neg_if(lhs_sgn), // as_int mapping is safe; remainder < 2^{k-1} by construction.
@@ -95,6 +152,11 @@ pub const fn rem_vartime<const RHS_LIMBS: usize>(
         &self,
         rhs: &NonZero<Int<RHS_LIMBS>>,
     ) -> (ret__: Int<RHS_LIMBS>)
+//@+
+    requires 1 <= LIMBS < 0x400_0000, 1 <= RHS_LIMBS < 0x400_0000, rhs.0.iv() != 0
+    ensures ret__.iv() == self.iv() - trunc_q(self.iv(), rhs.0.iv()) * rhs.0.iv(),
+        abs_i(ret__.iv()) < abs_i(rhs.0.iv()), ret__.iv() == 0 || (ret__.iv() < 0) == (self.iv() < 0)
+//@-
 {
         self.checked_div_rem_vartime(rhs).1
     }
@@ -106,12 +168,35 @@ pub const fn checked_div_rem_floor_vartime<const RHS_LIMBS: usize>(
         &self,
         rhs: &NonZero<Int<RHS_LIMBS>>,
     ) -> (ret__: (ConstCtOption<Self>, Int<RHS_LIMBS>))
+//@+
+    requires 1 <= LIMBS < 0x400_0000, 1 <= RHS_LIMBS < 0x400_0000, rhs.0.iv() != 0
+    ensures
+        self.iv() == floor_q(self.iv(), rhs.0.iv()) * rhs.0.iv() + ret__.1.iv(),
+        abs_i(ret__.1.iv()) < abs_i(rhs.0.iv()),
+        ret__.1.iv() == 0 || (ret__.1.iv() < 0) == (rhs.0.iv() < 0),
+        ret__.0.is_some.wf(),
+        ret__.0.is_some.t() == !(self.iv() == -ih(LIMBS as nat) && rhs.0.iv() == -1),
+        ret__.0.is_some.t() ==> ret__.0.value.iv() == floor_q(self.iv(), rhs.0.iv())
+//@-
 {
         let (lhs_mag, lhs_sgn) = self.abs_sign();
         let (rhs_mag, rhs_sgn) = rhs.abs_sign();
         let (quotient, remainder) = lhs_mag.div_rem_vartime(&rhs_mag);
         // Modify quotient and remainder when lhs and rhs have opposing signs and the remainder is
         // non-zero.
+//@+
+    let ghost q0 = quotient.v(); let ghost r0 = remainder.v();
+    proof {
+        lemma_half(LIMBS as nat); lemma_half(RHS_LIMBS as nat);
+        lemma_val_bound(quotient.limbs@, LIMBS as nat); lemma_val_bound(remainder.limbs@, RHS_LIMBS as nat);
+        lemma_val_bound(self.0.limbs@, LIMBS as nat); lemma_val_bound(rhs.0.0.limbs@, RHS_LIMBS as nat);
+        lemma_iv_bounds(self.0.v(), LIMBS as nat); lemma_iv_bounds(rhs.0.0.v(), RHS_LIMBS as nat);
+        lemma_floor(self.iv(), rhs.0.iv(), q0, r0);
+        lemma_floor_qbound(self.iv(), rhs.0.iv(), q0, r0, ih(LIMBS as nat));
+        lemma_small_mod((q0 + 1) as nat, bp(LIMBS as nat) as nat);
+        if r0 != 0 { lemma_small_mod((abs_i(rhs.0.iv()) - r0) as nat, bp(RHS_LIMBS as nat) as nat); }
+    }
+//@-
         let opposing_signs = lhs_sgn.xor(rhs_sgn);
         let modify = remainder.is_nonzero().and(opposing_signs);
         // Increase the quotient by one.
@@ -121,6 +206,9 @@ pub const fn checked_div_rem_floor_vartime<const RHS_LIMBS: usize>(
         let inv_remainder = rhs_mag.0.wrapping_sub(&remainder);
         let remainder = Uint::select(&remainder, &inv_remainder, modify);
         // Negate the quotient when lhs and rhs have opposing signs; the remainder takes the sign of rhs.
+//@+
+    proof { lemma_val_bound(quotient.limbs@, LIMBS as nat); lemma_val_bound(remainder.limbs@, RHS_LIMBS as nat); }
+//@-
         let quotient = Int::new_from_abs_sign(quotient, opposing_signs);
         let remainder = remainder.as_int().wrapping_neg_if(rhs_sgn); // rem always small enough for safe as_int conversion
         (quotient, remainder)
@@ -130,12 +218,35 @@ pub const fn checked_div_rem_floor_vartime<const RHS_LIMBS: usize>(
 //@@ fn src/int/div.rs | impl<const LIMBS: usize> Int<LIMBS> | checked_div_rem_floor | body | props C14 C11
 impl<const LIMBS: usize> Int<LIMBS> {
 pub const fn checked_div_rem_floor(&self, rhs: &NonZero<Self>) -> (ret__: (ConstCtOption<Self>, Self))
+//@+
+    requires 1 <= LIMBS < 0x400_0000, rhs.0.iv() != 0
+    ensures
+        self.iv() == floor_q(self.iv(), rhs.0.iv()) * rhs.0.iv() + ret__.1.iv(),
+        abs_i(ret__.1.iv()) < abs_i(rhs.0.iv()),
+        ret__.1.iv() == 0 || (ret__.1.iv() < 0) == (rhs.0.iv() < 0),
+        ret__.0.is_some.wf(),
+        ret__.0.is_some.t() == !(self.iv() == -ih(LIMBS as nat) && rhs.0.iv() == -1),
+        ret__.0.is_some.t() ==> ret__.0.value.iv() == floor_q(self.iv(), rhs.0.iv())
+//@-
 {
         let (lhs_mag, lhs_sgn) = self.abs_sign();
         let (rhs_mag, rhs_sgn) = rhs.abs_sign();
         let (quotient, remainder) = lhs_mag.div_rem(&rhs_mag);
         // Modify quotient and remainder when lhs and rhs have opposing signs and the remainder is
         // non-zero.
+//@+
+    let ghost q0 = quotient.v(); let ghost r0 = remainder.v();
+    proof {
+        lemma_half(LIMBS as nat); lemma_half(LIMBS as nat);
+        lemma_val_bound(quotient.limbs@, LIMBS as nat); lemma_val_bound(remainder.limbs@, LIMBS as nat);
+        lemma_val_bound(self.0.limbs@, LIMBS as nat); lemma_val_bound(rhs.0.0.limbs@, LIMBS as nat);
+        lemma_iv_bounds(self.0.v(), LIMBS as nat); lemma_iv_bounds(rhs.0.0.v(), LIMBS as nat);
+        lemma_floor(self.iv(), rhs.0.iv(), q0, r0);
+        lemma_floor_qbound(self.iv(), rhs.0.iv(), q0, r0, ih(LIMBS as nat));
+        lemma_small_mod((q0 + 1) as nat, bp(LIMBS as nat) as nat);
+        if r0 != 0 { lemma_small_mod((abs_i(rhs.0.iv()) - r0) as nat, bp(LIMBS as nat) as nat); }
+    }
+//@-
         let opposing_signs = lhs_sgn.xor(rhs_sgn);
         let modify = remainder.is_nonzero().and(opposing_signs);
         // Increase the quotient by one.
@@ -145,6 +256,9 @@ pub const fn checked_div_rem_floor(&self, rhs: &NonZero<Self>) -> (ret__: (Const
         let inv_remainder = rhs_mag.0.wrapping_sub(&remainder);
         let remainder = Uint::select(&remainder, &inv_remainder, modify);
         // Negate the quotient when lhs and rhs have opposing signs; the remainder takes the sign of rhs.
+//@+
+    proof { lemma_val_bound(quotient.limbs@, LIMBS as nat); lemma_val_bound(remainder.limbs@, LIMBS as nat); }
+//@-
         let quotient = Int::new_from_abs_sign(quotient, opposing_signs);
         let remainder = remainder.as_int().wrapping_neg_if(rhs_sgn); // rem always small enough for safe as_int conversion
         (quotient, remainder)
@@ -157,6 +271,11 @@ pub const fn div_rem_base_uint(
         &self,
         rhs: &NonZero<Uint<LIMBS>>,
     ) -> (ret__: (Uint<{ LIMBS }>, Uint<{ LIMBS }>, ConstChoice))
+//@+
+    requires 1 <= LIMBS < 0x400_0000, rhs.0.v() != 0
+    ensures ret__.2.wf(), ret__.2.t() == (self.iv() < 0),
+        ret__.0.v() * rhs.0.v() + ret__.1.v() == abs_i(self.iv()), 0 <= ret__.1.v() < rhs.0.v()
+//@-
 {
         let (lhs_mag, lhs_sgn) = self.abs_sign();
         let (quotient, remainder) = lhs_mag.div_rem(rhs);
@@ -167,8 +286,28 @@ pub const fn div_rem_base_uint(
 //@@ fn src/int/div_uint.rs | impl<const LIMBS: usize> Int<LIMBS> | div_rem_uint | body | props C14 C11
 impl<const LIMBS: usize> Int<LIMBS> {
 pub const fn div_rem_uint(&self, rhs: &NonZero<Uint<LIMBS>>) -> (ret__: (Self, Self))
+//@+
+    requires 1 <= LIMBS < 0x400_0000, rhs.0.v() != 0
+    ensures self.iv() == ret__.0.iv() * rhs.0.v() + ret__.1.iv(),
+        ret__.0.iv() == trunc_q(self.iv(), rhs.0.v()),
+        abs_i(ret__.1.iv()) < rhs.0.v(),
+        ret__.1.iv() == 0 || (ret__.1.iv() < 0) == (self.iv() < 0)
+//@-
 {
         let (quotient, remainder, lhs_sgn) = self.div_rem_base_uint(rhs);
+//@+
+    proof {
+        let n = self.iv(); let d = rhs.0.v();
+        lemma_half(LIMBS as nat); lemma_half(LIMBS as nat);
+        lemma_val_bound(quotient.limbs@, LIMBS as nat); lemma_val_bound(remainder.limbs@, LIMBS as nat);
+        lemma_val_bound(self.0.limbs@, LIMBS as nat); lemma_val_bound(rhs.0.limbs@, LIMBS as nat);
+        lemma_iv_bounds(self.0.v(), LIMBS as nat);
+        lemma_trunc(n, d, quotient.v(), remainder.v());
+        lemma_qbound(n, d, quotient.v(), remainder.v(), ih(LIMBS as nat));
+        lemma_neg_mag(quotient.v(), (bp(LIMBS as nat) - quotient.v()) % bp(LIMBS as nat), LIMBS as nat);
+        lemma_neg_mag(remainder.v(), (bp(LIMBS as nat) - remainder.v()) % bp(LIMBS as nat), LIMBS as nat);
+    }
+//@-
         (
             Self(quotient).wrapping_neg_if(lhs_sgn),
             Self(remainder).wrapping_neg_if(lhs_sgn),
@@ -179,6 +318,10 @@ pub const fn div_rem_uint(&self, rhs: &NonZero<Uint<LIMBS>>) -> (ret__: (Self, S
 //@@ fn src/int/div_uint.rs | impl<const LIMBS: usize> Int<LIMBS> | div_uint | body | props C14 C11
 impl<const LIMBS: usize> Int<LIMBS> {
 pub const fn div_uint(&self, rhs: &NonZero<Uint<LIMBS>>) -> (ret__: Self)
+//@+
+    requires 1 <= LIMBS < 0x400_0000, rhs.0.v() != 0
+    ensures ret__.iv() == trunc_q(self.iv(), rhs.0.v())
+//@-
 {
         self.div_rem_uint(rhs).0
     }
@@ -187,6 +330,10 @@ pub const fn div_uint(&self, rhs: &NonZero<Uint<LIMBS>>) -> (ret__: Self)
 //@@ fn src/int/div_uint.rs | impl<const LIMBS: usize> Int<LIMBS> | rem_uint | body | props C14 C11
 impl<const LIMBS: usize> Int<LIMBS> {
 pub const fn rem_uint(&self, rhs: &NonZero<Uint<LIMBS>>) -> (ret__: Self)
+//@+
+    requires 1 <= LIMBS < 0x400_0000, rhs.0.v() != 0
+    ensures ret__.iv() == self.iv() - trunc_q(self.iv(), rhs.0.v()) * rhs.0.v(), abs_i(ret__.iv()) < rhs.0.v(), ret__.iv() == 0 || (ret__.iv() < 0) == (self.iv() < 0)
+//@-
 {
         self.div_rem_uint(rhs).1
     }
@@ -198,6 +345,11 @@ pub const fn div_rem_base_uint_vartime<const RHS_LIMBS: usize>(
         &self,
         rhs: &NonZero<Uint<RHS_LIMBS>>,
     ) -> (ret__: (Uint<LIMBS>, Uint<RHS_LIMBS>, ConstChoice))
+//@+
+    requires 1 <= LIMBS < 0x400_0000, 1 <= RHS_LIMBS < 0x400_0000, rhs.0.v() != 0
+    ensures ret__.2.wf(), ret__.2.t() == (self.iv() < 0),
+        ret__.0.v() * rhs.0.v() + ret__.1.v() == abs_i(self.iv()), 0 <= ret__.1.v() < rhs.0.v()
+//@-
 {
         let (lhs_mag, lhs_sgn) = self.abs_sign();
         let (quotient, remainder) = lhs_mag.div_rem_vartime(rhs);
@@ -211,8 +363,36 @@ pub const fn div_rem_uint_vartime<const RHS_LIMBS: usize>(
         &self,
         rhs: &NonZero<Uint<RHS_LIMBS>>,
     ) -> (ret__: (Self, Int<RHS_LIMBS>))
+//@+
+    requires 1 <= LIMBS < 0x400_0000, 1 <= RHS_LIMBS < 0x400_0000, rhs.0.v() != 0
+    ensures ret__.0.iv() == trunc_q(self.iv(), rhs.0.v()),
+        abs_i(true_rem(self.iv(), rhs.0.v())) < rhs.0.v(),
+        true_rem(self.iv(), rhs.0.v()) == 0 || (true_rem(self.iv(), rhs.0.v()) < 0) == (self.iv() < 0),
+        ret__.1.iv() == wrap_i(true_rem(self.iv(), rhs.0.v()), RHS_LIMBS as nat),
+        (RHS_LIMBS >= LIMBS || rhs.0.v() <= ih(RHS_LIMBS as nat)) ==> in_range(true_rem(self.iv(), rhs.0.v()), RHS_LIMBS as nat),
+        in_range(true_rem(self.iv(), rhs.0.v()), RHS_LIMBS as nat) ==> self.iv() == ret__.0.iv() * rhs.0.v() + ret__.1.iv()
+//@-
 {
         let (quotient, remainder, lhs_sgn) = self.div_rem_base_uint_vartime(rhs);
+//@+
+    proof {
+        let n = self.iv(); let d = rhs.0.v();
+        lemma_half(LIMBS as nat); lemma_half(RHS_LIMBS as nat);
+        lemma_val_bound(quotient.limbs@, LIMBS as nat); lemma_val_bound(remainder.limbs@, RHS_LIMBS as nat);
+        lemma_val_bound(self.0.limbs@, LIMBS as nat); lemma_val_bound(rhs.0.limbs@, RHS_LIMBS as nat);
+        lemma_iv_bounds(self.0.v(), LIMBS as nat);
+        lemma_trunc(n, d, quotient.v(), remainder.v());
+        lemma_qbound(n, d, quotient.v(), remainder.v(), ih(LIMBS as nat));
+        lemma_neg_mag(quotient.v(), (bp(LIMBS as nat) - quotient.v()) % bp(LIMBS as nat), LIMBS as nat);
+        let r0 = remainder.v(); let rt = true_rem(n, d);
+        assert(rt == (if n < 0 { -r0 } else { r0 }));
+        lemma_iv_bounds(r0, RHS_LIMBS as nat);
+        lemma_ineg(r0, (bp(RHS_LIMBS as nat) - r0) % bp(RHS_LIMBS as nat), RHS_LIMBS as nat);
+        if n < 0 { if iv_of(r0, RHS_LIMBS as nat) != r0 { lemma_wrap_shift(-r0, 1, RHS_LIMBS as nat); } }
+        if in_range(rt, RHS_LIMBS as nat) { lemma_wrap_id(rt, RHS_LIMBS as nat); }
+        if RHS_LIMBS >= LIMBS { lemma_bp_mono(LIMBS as nat, RHS_LIMBS as nat); }
+    }
+//@-
         (
             Self(quotient).wrapping_neg_if(lhs_sgn),
             remainder.as_int().wrapping_neg_if(lhs_sgn),
@@ -226,6 +406,10 @@ pub const fn div_uint_vartime<const RHS_LIMBS: usize>(
         &self,
         rhs: &NonZero<Uint<RHS_LIMBS>>,
     ) -> (ret__: Self)
+//@+
+    requires 1 <= LIMBS < 0x400_0000, 1 <= RHS_LIMBS < 0x400_0000, rhs.0.v() != 0
+    ensures ret__.iv() == trunc_q(self.iv(), rhs.0.v())
+//@-
 {
         self.div_rem_uint_vartime(rhs).0
     }
@@ -237,7 +421,17 @@ pub const fn rem_uint_vartime<const RHS_LIMBS: usize>(
         &self,
         rhs: &NonZero<Uint<RHS_LIMBS>>,
     ) -> (ret__: Int<RHS_LIMBS>)
+//@+
+    requires 1 <= LIMBS < 0x400_0000, 1 <= RHS_LIMBS < 0x400_0000, rhs.0.v() != 0
+    ensures ret__.iv() == wrap_i(true_rem(self.iv(), rhs.0.v()), RHS_LIMBS as nat),
+        (RHS_LIMBS >= LIMBS || rhs.0.v() <= ih(RHS_LIMBS as nat)) ==> ret__.iv() == true_rem(self.iv(), rhs.0.v()),
+        abs_i(true_rem(self.iv(), rhs.0.v())) < rhs.0.v(),
+        true_rem(self.iv(), rhs.0.v()) == 0 || (true_rem(self.iv(), rhs.0.v()) < 0) == (self.iv() < 0)
+//@-
 {
+//@+
+    proof { if in_range(true_rem(self.iv(), rhs.0.v()), RHS_LIMBS as nat) { lemma_wrap_id(true_rem(self.iv(), rhs.0.v()), RHS_LIMBS as nat); } }
+//@-
         self.div_rem_uint_vartime(rhs).1
     }
 }
@@ -245,14 +439,41 @@ pub const fn rem_uint_vartime<const RHS_LIMBS: usize>(
 //@@ fn src/int/div_uint.rs | impl<const LIMBS: usize> Int<LIMBS> | div_rem_floor_uint | body | props C14 C11
 impl<const LIMBS: usize> Int<LIMBS> {
 pub fn div_rem_floor_uint(&self, rhs: &NonZero<Uint<LIMBS>>) -> (ret__: (Self, Uint<LIMBS>))
+//@+
+    requires 1 <= LIMBS < 0x400_0000, rhs.0.v() != 0
+    ensures self.iv() == ret__.0.iv() * rhs.0.v() + ret__.1.v(), 0 <= ret__.1.v() < rhs.0.v(),
+        ret__.0.iv() == self.iv() / rhs.0.v(), ret__.1.v() == self.iv() % rhs.0.v(), ret__.0.iv() == floor_q(self.iv(), rhs.0.v())
+//@-
 {
         let (quotient, remainder, lhs_sgn) = self.div_rem_base_uint(rhs);
+//@+
+    let ghost q0 = quotient.v(); let ghost r0 = remainder.v();
+    proof {
+        let n = self.iv(); let d = rhs.0.v();
+        lemma_half(LIMBS as nat);
+        lemma_val_bound(quotient.limbs@, LIMBS as nat); lemma_val_bound(remainder.limbs@, LIMBS as nat);
+        lemma_val_bound(self.0.limbs@, LIMBS as nat); lemma_val_bound(rhs.0.limbs@, LIMBS as nat);
+        lemma_iv_bounds(self.0.v(), LIMBS as nat);
+        lemma_floor(n, d, q0, r0);
+        lemma_floor_qbound(n, d, q0, r0, ih(LIMBS as nat));
+        lemma_small_mod((q0 + 1) as nat, bp(LIMBS as nat) as nat);
+        if r0 != 0 { lemma_small_mod((d - r0) as nat, bp(LIMBS as nat) as nat); }
+    }
+//@-
         // Increase the quotient by one when self is negative and there is a non-zero remainder.
         let modify = remainder.is_nonzero().and(lhs_sgn);
         let quotient = Uint::select(&quotient, &quotient.wrapping_add(&Uint::ONE()), modify);
         // Invert the remainder when self is negative and there is a non-zero remainder.
         let remainder = Uint::select(&remainder, &rhs.wrapping_sub(&remainder), modify);
         // Negate if applicable
+//@+
+    proof {
+        lemma_val_bound(quotient.limbs@, LIMBS as nat);
+        lemma_neg_mag(quotient.v(), (bp(LIMBS as nat) - quotient.v()) % bp(LIMBS as nat), LIMBS as nat);
+        let qs = if self.iv() < 0 { -quotient.v() } else { quotient.v() };
+        lemma_fundamental_div_mod_converse(self.iv(), rhs.0.v(), qs, remainder.v());
+    }
+//@-
         let quotient = Self(quotient).wrapping_neg_if(lhs_sgn);
         (quotient, remainder)
     }
@@ -261,6 +482,10 @@ pub fn div_rem_floor_uint(&self, rhs: &NonZero<Uint<LIMBS>>) -> (ret__: (Self, U
 //@@ fn src/int/div_uint.rs | impl<const LIMBS: usize> Int<LIMBS> | div_floor_uint | body | props C14 C11
 impl<const LIMBS: usize> Int<LIMBS> {
 pub fn div_floor_uint(&self, rhs: &NonZero<Uint<LIMBS>>) -> (ret__: Self)
+//@+
+    requires 1 <= LIMBS < 0x400_0000, rhs.0.v() != 0
+    ensures ret__.iv() == self.iv() / rhs.0.v(), ret__.iv() == floor_q(self.iv(), rhs.0.v())
+//@-
 {
         let (q, _) = self.div_rem_floor_uint(rhs);
         q
@@ -270,6 +495,10 @@ pub fn div_floor_uint(&self, rhs: &NonZero<Uint<LIMBS>>) -> (ret__: Self)
 //@@ fn src/int/div_uint.rs | impl<const LIMBS: usize> Int<LIMBS> | normalized_rem | body | props C14 C11
 impl<const LIMBS: usize> Int<LIMBS> {
 pub fn normalized_rem(&self, rhs: &NonZero<Uint<LIMBS>>) -> (ret__: Uint<LIMBS>)
+//@+
+    requires 1 <= LIMBS < 0x400_0000, rhs.0.v() != 0
+    ensures 0 <= ret__.v() < rhs.0.v(), ret__.v() == self.iv() % rhs.0.v()
+//@-
 {
         let (_, r) = self.div_rem_floor_uint(rhs);
         r
@@ -282,14 +511,41 @@ pub fn div_rem_floor_uint_vartime<const RHS_LIMBS: usize>(
         &self,
         rhs: &NonZero<Uint<RHS_LIMBS>>,
     ) -> (ret__: (Self, Uint<RHS_LIMBS>))
+//@+
+    requires 1 <= LIMBS < 0x400_0000, 1 <= RHS_LIMBS < 0x400_0000, rhs.0.v() != 0
+    ensures self.iv() == ret__.0.iv() * rhs.0.v() + ret__.1.v(), 0 <= ret__.1.v() < rhs.0.v(),
+        ret__.0.iv() == self.iv() / rhs.0.v(), ret__.1.v() == self.iv() % rhs.0.v(), ret__.0.iv() == floor_q(self.iv(), rhs.0.v())
+//@-
 {
         let (quotient, remainder, lhs_sgn) = self.div_rem_base_uint_vartime(rhs);
+//@+
+    let ghost q0 = quotient.v(); let ghost r0 = remainder.v();
+    proof {
+        let n = self.iv(); let d = rhs.0.v();
+        lemma_half(LIMBS as nat);
+        lemma_val_bound(quotient.limbs@, LIMBS as nat); lemma_val_bound(remainder.limbs@, RHS_LIMBS as nat);
+        lemma_val_bound(self.0.limbs@, LIMBS as nat); lemma_val_bound(rhs.0.limbs@, RHS_LIMBS as nat);
+        lemma_iv_bounds(self.0.v(), LIMBS as nat);
+        lemma_floor(n, d, q0, r0);
+        lemma_floor_qbound(n, d, q0, r0, ih(LIMBS as nat));
+        lemma_small_mod((q0 + 1) as nat, bp(LIMBS as nat) as nat);
+        if r0 != 0 { lemma_small_mod((d - r0) as nat, bp(RHS_LIMBS as nat) as nat); }
+    }
+//@-
         // Increase the quotient by one when self is negative and there is a non-zero remainder.
         let modify = remainder.is_nonzero().and(lhs_sgn);
         let quotient = Uint::select(&quotient, &quotient.wrapping_add(&Uint::ONE()), modify);
         // Invert the remainder when self is negative and there is a non-zero remainder.
         let remainder = Uint::select(&remainder, &rhs.wrapping_sub(&remainder), modify);
         // Negate if applicable
+//@+
+    proof {
+        lemma_val_bound(quotient.limbs@, LIMBS as nat);
+        lemma_neg_mag(quotient.v(), (bp(LIMBS as nat) - quotient.v()) % bp(LIMBS as nat), LIMBS as nat);
+        let qs = if self.iv() < 0 { -quotient.v() } else { quotient.v() };
+        lemma_fundamental_div_mod_converse(self.iv(), rhs.0.v(), qs, remainder.v());
+    }
+//@-
         let quotient = Self(quotient).wrapping_neg_if(lhs_sgn);
         (quotient, remainder)
     }
@@ -301,6 +557,10 @@ pub fn div_floor_uint_vartime<const RHS_LIMBS: usize>(
         &self,
         rhs: &NonZero<Uint<RHS_LIMBS>>,
     ) -> (ret__: Self)
+//@+
+    requires 1 <= LIMBS < 0x400_0000, 1 <= RHS_LIMBS < 0x400_0000, rhs.0.v() != 0
+    ensures ret__.iv() == self.iv() / rhs.0.v(), ret__.iv() == floor_q(self.iv(), rhs.0.v())
+//@-
 {
         let (q, _) = self.div_rem_floor_uint_vartime(rhs);
         q
@@ -313,6 +573,10 @@ pub fn normalized_rem_vartime<const RHS_LIMBS: usize>(
         &self,
         rhs: &NonZero<Uint<RHS_LIMBS>>,
     ) -> (ret__: Uint<RHS_LIMBS>)
+//@+
+    requires 1 <= LIMBS < 0x400_0000, 1 <= RHS_LIMBS < 0x400_0000, rhs.0.v() != 0
+    ensures 0 <= ret__.v() < rhs.0.v(), ret__.v() == self.iv() % rhs.0.v()
+//@-
 {
         let (_, r) = self.div_rem_floor_uint_vartime(rhs);
         r
